@@ -1881,3 +1881,109 @@ Proof.
   apply Qmult_le_compat_r; [|exact Hs].
   apply Qplus_le_compat; [|apply Qle_refl]. apply Qopp_le_compat. exact Hd.
 Qed.
+
+(* ================================================================== the reference's polynomials enumerate column tuples *)
+(* for query column i: (similarity value, multiplicity) of every unique target column *)
+Definition wcol (c : call) (i : nat) : list (Z * Z) :=
+  map (fun rw => (nth i (fst rw) 0, snd rw)) (combine (q_x (c_q c)) (t_counts (c_t c))).
+(* weighted number of ways to draw one target column per listed query column with similarities summing to s *)
+Fixpoint count_eq (cols : list (list (Z * Z))) (s : Z) : Z :=
+  match cols with
+  | [] => if s =? 0 then 1 else 0
+  | col :: rest => sumZ (map (fun vw => snd vw * count_eq rest (s - fst vw)) col)
+  end.
+
+Lemma sum_f_sumZ_swap {T} (n : nat) (g : nat -> T -> Z) (col : list T) :
+  sum_f n (fun a => sumZ (map (g a) col)) = sumZ (map (fun x => sum_f n (fun a => g a x)) col).
+Proof.
+  induction col as [|x col IH]; cbn [map].
+  - rewrite sumZ_nil. apply sum_f_zero. intros; apply sumZ_nil.
+  - rewrite sumZ_cons, <- IH, <- sum_f_add. apply sum_f_ext. intros a _. apply sumZ_cons.
+Qed.
+Lemma sumZ_map_zero {T} (g : T -> Z) l : (forall x, In x l -> g x = 0) -> sumZ (map g l) = 0.
+Proof.
+  induction l as [|x l IH]; intros H; cbn [map]; rewrite ?sumZ_nil, ?sumZ_cons; [reflexivity|].
+  rewrite (H x) by (left; reflexivity). rewrite IH by (intros; apply H; right; assumption). ring.
+Qed.
+Lemma sumZ_map_ext_in {T} (f g : T -> Z) l : (forall x, In x l -> f x = g x) -> sumZ (map f l) = sumZ (map g l).
+Proof. intros H. f_equal. apply map_ext_in. exact H. Qed.
+
+Lemma count_eq_neg cols : (forall col vw, In col cols -> In vw col -> 0 <= fst vw) ->
+  forall s, s < 0 -> count_eq cols s = 0.
+Proof.
+  induction cols as [|col rest IH]; intros H s Hs; cbn [count_eq].
+  - replace (s =? 0) with false by lia. reflexivity.
+  - apply sumZ_map_zero. intros vw Hvw.
+    rewrite IH; [ring| |].
+    + intros col' vw' Hc Hv. apply (H col' vw'); [right; exact Hc|exact Hv].
+    + pose proof (H col vw (or_introl eq_refl) Hvw). lia.
+Qed.
+
+Section Enumerate.
+Variable c : call.
+Hypothesis W : WF c.
+Let nq := q_nq (c_q c).
+Let nb := t_nbins (c_t c).
+
+Lemma wcol_range i vw : In vw (wcol c i) -> 0 <= fst vw <= Z.of_nat nb.
+Proof.
+  unfold wcol. intros H. apply in_map_iff in H as [[r w] [<- Hin]]. cbn [fst snd].
+  apply in_combine_l in Hin.
+  destruct (Nat.lt_ge_cases i (length r)) as [Hi|Hi].
+  - apply (wf_xrow c W r Hin). apply nth_In. exact Hi.
+  - rewrite nth_overflow by exact Hi. lia.
+Qed.
+(* the histogram coefficient is the total multiplicity of the columns with that value *)
+Lemma colpoly_wcol i b : coef (colpoly c i) b = sumZ (map (fun vw => if fst vw =? Z.of_nat b then snd vw else 0) (wcol c i)).
+Proof.
+  destruct (Nat.lt_ge_cases b (S nb)) as [Hb|Hb].
+  - unfold colpoly. fold nb. rewrite nth_map_seq by exact Hb. cbn [Nat.add].
+    unfold weight, wcol. rewrite map_map. reflexivity.
+  - rewrite nth_beyond by (rewrite (colpoly_length c); fold nb; lia).
+    symmetry. apply sumZ_map_zero. intros vw Hvw. pose proof (wcol_range i vw Hvw).
+    replace (fst vw =? Z.of_nat b) with false by lia. reflexivity.
+Qed.
+
+(* coefficient k of the span polynomial = weighted number of column tuples whose similarities sum to k *)
+Lemma SP_enumerates i len : forall k,
+  coef (SP c i len) k = count_eq (rev (map (wcol c) (seq i len))) (Z.of_nat k).
+Proof.
+  induction len; intros k.
+  - unfold SP. cbn [seq map rev fold_left count_eq]. destruct k as [|[|k]]; cbn; reflexivity.
+  - rewrite SP_S, seq_S, map_app, rev_app_distr. cbn [map rev app count_eq].
+    rewrite nth_pmul.
+    rewrite (sum_f_ext _ _ (fun a => sumZ (map (fun vw => if (a <=? k)%nat && (fst vw =? Z.of_nat (k - a))
+                                                   then coef (SP c i len) a * snd vw else 0) (wcol c (i + len))))).
+    2:{ intros a _. destruct (a <=? k)%nat eqn:E; cbn [andb].
+        - rewrite colpoly_wcol, <- sumZ_map_mul, map_map. apply sumZ_map_ext_in. intros vw _.
+          destruct (fst vw =? Z.of_nat (k - a)); ring.
+        - symmetry. apply sumZ_map_zero. intros; reflexivity. }
+    rewrite sum_f_sumZ_swap. apply sumZ_map_ext_in. intros vw Hvw.
+    pose proof (wcol_range (i + len) vw Hvw) as Hr.
+    destruct (Z.leb_spec (fst vw) (Z.of_nat k)) as [Hle|Hgt].
+    + (* the single index a = k - v contributes *)
+      replace (Z.of_nat k - fst vw) with (Z.of_nat (k - Z.to_nat (fst vw))) by lia.
+      rewrite <- IHlen.
+      destruct (Nat.lt_ge_cases (k - Z.to_nat (fst vw)) (length (SP c i len))) as [Hin|Hout].
+      * rewrite (sum_f_single _ _ (k - Z.to_nat (fst vw))%nat Hin).
+        -- replace ((k - Z.to_nat (fst vw) <=? k)%nat && (fst vw =? Z.of_nat (k - (k - Z.to_nat (fst vw))))) with true by lia.
+           ring.
+        -- intros a Ha Hne. replace ((a <=? k)%nat && (fst vw =? Z.of_nat (k - a))) with false by lia. reflexivity.
+      * rewrite (nth_beyond (SP c i len)) by exact Hout. rewrite Z.mul_0_r.
+        apply sum_f_zero. intros a Ha. replace ((a <=? k)%nat && (fst vw =? Z.of_nat (k - a))) with false by lia. reflexivity.
+    + rewrite count_eq_neg; [| |lia].
+      * rewrite Z.mul_0_r. apply sum_f_zero. intros a Ha.
+        replace ((a <=? k)%nat && (fst vw =? Z.of_nat (k - a))) with false by lia. reflexivity.
+      * intros col vw' Hc Hv. apply in_rev in Hc. apply in_map_iff in Hc as [j [<- _]].
+        apply (wcol_range j vw' Hv).
+Qed.
+
+(* the reference's per-offset cdf counts the tuples of pooled target columns, one per aligned query
+   column, whose complete score (aligned similarities + offset per unaligned column) is at most s *)
+Lemma null_poly_enumerates nt k j : (1 <= nt)%nat -> (k < nt + nq - 1)%nat ->
+  coef (null_poly c nt (o_of c k)) j
+  = count_eq (rev (map (wcol c) (seq (fst (span_of c nt k)) (slen (span_of c nt k))))) (Z.of_nat j).
+Proof.
+  intros Hnt Hk. rewrite (null_poly_SP c W nt k Hnt Hk). apply SP_enumerates.
+Qed.
+End Enumerate.
